@@ -2,6 +2,13 @@
    Source: gemclus/tree/kauri.py (class Tree: __init__, _add_child, get_depth, predict;
    Kauri.fit, Kauri.predict, Kauri.score) and gemclus/tree/_utils.pyx (gemini_objective,
    kernel_stock; the admissibility window of find_best_split / compute_all_splits).
+   SKELETON + HOLES: the control skeleton is written here once, generic in a record [R : FitRules]
+   of holes (comparison operators, constants, which row/column/index set is written, the order of
+   the updates, index arithmetic); the value [kauri_fit_rules] of the record is REGENERATED from the
+   AST of kauri.py by translator/tr_kaurifit.py into Gen/KauriFitRules.v, which also checks that the
+   source still has this skeleton.  The names without suffix ([init], [step], [guard], [loop],
+   [fit], [add_child], [route], ...) are the instantiation with the regenerated rules: they are what
+   the theorems, the extraction and the OCaml driver use.
    find_best_split itself is an ORACLE here (property C08 is about its gains): the loop takes a
    function [choose : state -> option ksplit].  Feature values are integers (Z): the code only
    ever compares feature values with [<=] / [==], so the harness sends order-preserving ranks.
@@ -9,7 +16,7 @@
    builds Split(..., is_categorical=False); the categorical branch of Tree.predict is dead).
    No proofs in this file. *)
 From Coq Require Import List Arith ZArith Bool.
-From GV Require Import Common.Num.
+From GV Require Import Common.Num Gen.KauriFitRules.
 Import ListNotations.
 
 (* ------------------------------------------------------------------ data *)
@@ -31,8 +38,6 @@ Definition tree := list node.
 Definition leaf_node (target depth : nat) : node :=
   {| nd_left := None; nd_right := None; nd_feature := None; nd_threshold := None;
      nd_target := target; nd_depth := depth |}.
-(* Tree(): children [-1], target [0], thresholds [None], features [None], depths [0], n_nodes 1 *)
-Definition tree_init : tree := [leaf_node 0 0].
 Definition n_nodes (t : tree) : nat := length t.
 Definition get_node (t : tree) (a : nat) : node := nth a t (leaf_node 0 0).
 
@@ -43,78 +48,17 @@ Fixpoint upd_nth {A} (l : list A) (i : nat) (f : A -> A) : list A :=
   | x :: r, S j => x :: upd_nth r j f
   end.
 
-(* kauri.py::Tree._add_child(father, split):
-     children_left[father] = n_nodes; children_right[father] = n_nodes+1;
-     thresholds[father] = split.threshold; features[father] = split.feature;
-     lists += two entries (-1,-1,None,None, depths[father]+1, targets left_target,right_target);
-     n_nodes += 2.  The father's own target and depth are left as they were. *)
-Definition add_child (t : tree) (father : nat) (sp : ksplit) : tree :=
-  let n := length t in
-  let dep := S (nd_depth (get_node t father)) in
-  upd_nth t father (fun nd =>
-    {| nd_left := Some n; nd_right := Some (S n); nd_feature := Some (s_feature sp);
-       nd_threshold := Some (s_threshold sp); nd_target := nd_target nd; nd_depth := nd_depth nd |})
-  ++ [leaf_node (s_left sp) dep; leaf_node (s_right sp) dep].
-
-(* kauri.py::Tree.predict(X, node=0), one row at a time:
-     if children_left[node] == -1: target[node]
-     else: left iff X[:, features[node]] <= thresholds[node]; recurse into the child.
-   The Python recursion has no fuel; [None] is "out of fuel or malformed tree" and is excluded by
-   the theorems (fuel = n_nodes is always enough because children have larger indices). *)
-Fixpoint route (fuel : nat) (t : tree) (x : row) (a : nat) : option nat :=
-  match fuel with
-  | O => None
-  | S fu =>
-    match nth_error t a with
-    | None => None
-    | Some nd =>
-      match nd_left nd with
-      | None => Some a
-      | Some l =>
-        match nd_right nd, nd_feature nd, nd_threshold nd with
-        | Some r, Some f, Some th => if (xval x f <=? th)%Z then route fu t x l else route fu t x r
-        | _, _, _ => None
-        end
-      end
-    end
-  end.
-(* does the routing of x started at node a pass through node b ? *)
-Fixpoint visits (fuel : nat) (t : tree) (x : row) (a b : nat) : bool :=
-  match fuel with
-  | O => false
-  | S fu =>
-    match nth_error t a with
-    | None => false
-    | Some nd =>
-      if a =? b then true else
-      match nd_left nd, nd_right nd, nd_feature nd, nd_threshold nd with
-      | Some l, Some r, Some f, Some th => if (xval x f <=? th)%Z then visits fu t x l b else visits fu t x r b
-      | _, _, _, _ => false
-      end
-    end
-  end.
-Definition route_leaf (t : tree) (x : row) : option nat := route (length t) t x 0.
-Definition predict_row (t : tree) (x : row) : option nat :=
-  match route_leaf t x with Some a => Some (nd_target (get_node t a)) | None => None end.
-Definition predict (t : tree) (X : data) : list (option nat) := map (predict_row t) X.
 Definition is_leafb (nd : node) : bool := match nd_left nd with None => true | Some _ => false end.
 Definition count_leaves (t : tree) : nat := length (filter is_leafb t).
 (* Tree.get_depth() = max(depths) *)
 Definition tree_depth (t : tree) : nat := fold_right (fun nd m => Nat.max (nd_depth nd) m) 0 t.
-(* number of training rows whose routing passes through node a *)
 Fixpoint countb (n : nat) (p : nat -> bool) : nat :=
   match n with O => 0 | S m => countb m p + (if p m then 1 else 0) end.
-Definition node_count (t : tree) (X : data) (a : nat) : nat :=
-  countb (length X) (fun i => visits (length t) t (nth i X []) 0 a).
 
 (* ------------------------------------------------------------------ parameters *)
-(* Kauri.__init__ / the "Set up variables" block of Kauri.fit *)
+(* Kauri.__init__ *)
 Record params := { max_clusters : nat; max_depth : option nat; min_samples_split : nat;
                    min_samples_leaf : nat; max_leaves : option nat }.
-(* max_leaves = self.max_leaves if self.max_leaves is not None else n *)
-Definition eff_max_leaves (P : params) (n : nat) : nat := match max_leaves P with None => n | Some m => m end.
-(* max_depth = len(X) if self.max_depth is None else self.max_depth *)
-Definition eff_max_depth (P : params) (n : nat) : nat := match max_depth P with None => n | Some m => m end.
 
 (* ------------------------------------------------------------------ state of the fit loop *)
 (* Z : (max_leaves x n) 0/1 leaf->sample; Y : (max_clusters x max_leaves) 0/1 cluster->leaf;
@@ -123,19 +67,12 @@ Definition eff_max_depth (P : params) (n : nat) : nat := match max_depth P with 
 Record state := { st_Z : nat -> nat -> bool; st_Y : nat -> nat -> bool; st_nl : nat; st_nc : nat;
                   st_queue : list nat; st_l2n : nat -> nat; st_tree : tree }.
 
-(* Z[0,:] = 1; Y[0,0] = 1; n_leaves = n_clusters = 1;
-   leaves_to_explore = [0] if n >= min_samples_split else []; leaf2node = {0: 0} *)
-Definition init (P : params) (X : data) : state :=
-  {| st_Z := fun l _ => l =? 0; st_Y := fun k l => (k =? 0) && (l =? 0); st_nl := 1; st_nc := 1;
-     st_queue := if min_samples_split P <=? length X then [0] else [];
-     st_l2n := fun _ => 0; st_tree := tree_init |}.
-
 Definition b2n (b : bool) : nat := if b then 1 else 0.
 (* numpy argmax: index of the first maximum of f 0 .. f (n-1) *)
 Fixpoint argmax_nat (n : nat) (f : nat -> nat) : nat :=
   match n with O => 0 | S m => let a := argmax_nat m f in if f a <? f m then m else a end.
 Fixpoint sumn (n : nat) (f : nat -> nat) : nat := match n with O => 0 | S m => sumn m f + f m end.
-(* k = Y[:, leaf].argmax() *)
+(* Y[:, l].argmax() *)
 Definition cluster_of (P : params) (st : state) (l : nat) : nat :=
   argmax_nat (max_clusters P) (fun k => b2n (st_Y st k l)).
 Definition leaf_size (X : data) (st : state) (l : nat) : nat := countb (length X) (st_Z st l).
@@ -147,81 +84,177 @@ Fixpoint remove_first (x : nat) (l : list nat) : list nat :=
   match l with [] => [] | y :: r => if x =? y then r else y :: remove_first x r end.
 Definition upd (f : nat -> nat) (a v : nat) : nat -> nat := fun x => if x =? a then v else f x.
 
-(* left_indices = leaf_indices[X[leaf_indices, feature] <= threshold]; right = setxor1d(leaf, left) *)
-Definition goes_left (X : data) (st : state) (sp : ksplit) (i : nat) : bool :=
-  st_Z st (s_leaf sp) i && (feat X i (s_feature sp) <=? s_threshold sp)%Z.
-Definition goes_right (X : data) (st : state) (sp : ksplit) (i : nat) : bool :=
-  st_Z st (s_leaf sp) i && negb (feat X i (s_feature sp) <=? s_threshold sp)%Z.
+(* reading the selectors of the regenerated rules *)
+Definition pick {A} (s : sidesel) (l r : A) : A := match s with SLeft => l | SRight => r end.
+Definition col_of (c : colsel) (leaf nl : nat) : nat := match c with CLeaf => leaf | CNew => nl end.
+Definition cl_of (c : clsel) (k lt rt : nat) : nat := match c with KOld => k | KLeft => lt | KRight => rt end.
+
+Inductive outcome := Done (st : state) | OutOfFuel.
+
+(* ================================================================== the skeleton, generic in the holes *)
+Section Skeleton.
+Variable R : FitRules.
+
+(* Tree(): children [-1], target [<c>], thresholds [None], features [None], depths [<c>], n_nodes 1 *)
+Definition tree_init_g : tree := [leaf_node (r_root_target R) (r_root_depth R)].
+
+(* kauri.py::Tree._add_child(father, split):
+     children_left[father] = <e n_nodes>; children_right[father] = <e n_nodes>;
+     thresholds[father] = split.threshold; features[father] = split.feature;
+     lists += two entries (-1,-1,None,None, depths <e depths[father]> x2, targets <t>,<t>);
+     n_nodes += 2.  The father's own target and depth are left as they were. *)
+Definition add_child_g (t : tree) (father : nat) (sp : ksplit) : tree :=
+  let n := length t in
+  let fd := nd_depth (get_node t father) in
+  upd_nth t father (fun nd =>
+    {| nd_left := Some (r_child_left R n); nd_right := Some (r_child_right R n); nd_feature := Some (s_feature sp);
+       nd_threshold := Some (s_threshold sp); nd_target := nd_target nd; nd_depth := nd_depth nd |})
+  ++ [leaf_node (pick (r_child_target_l R) (s_left sp) (s_right sp)) (r_child_depth_l R fd);
+      leaf_node (pick (r_child_target_r R) (s_left sp) (s_right sp)) (r_child_depth_r R fd)].
+
+(* kauri.py::Tree.predict(X, node=0), one row at a time:
+     if children_left[node] == -1: target[node]
+     else: X_left = X[:, features[node]] <cmp> thresholds[node]; rows of X_left go to <child>, the others to <child>.
+   The Python recursion has no fuel; [None] is "out of fuel or malformed tree" and is excluded by
+   the theorems (fuel = n_nodes is always enough because children have larger indices). *)
+Fixpoint route_g (fuel : nat) (t : tree) (x : row) (a : nat) : option nat :=
+  match fuel with
+  | O => None
+  | S fu =>
+    match nth_error t a with
+    | None => None
+    | Some nd =>
+      match nd_left nd with
+      | None => Some a
+      | Some l =>
+        match nd_right nd, nd_feature nd, nd_threshold nd with
+        | Some r, Some f, Some th => if r_route_left R (xval x f) th then route_g fu t x (pick (r_route_true R) l r)
+                                     else route_g fu t x (pick (r_route_false R) l r)
+        | _, _, _ => None
+        end
+      end
+    end
+  end.
+(* does the routing of x started at node a pass through node b ? *)
+Fixpoint visits_g (fuel : nat) (t : tree) (x : row) (a b : nat) : bool :=
+  match fuel with
+  | O => false
+  | S fu =>
+    match nth_error t a with
+    | None => false
+    | Some nd =>
+      if a =? b then true else
+      match nd_left nd, nd_right nd, nd_feature nd, nd_threshold nd with
+      | Some l, Some r, Some f, Some th => if r_route_left R (xval x f) th then visits_g fu t x (pick (r_route_true R) l r) b
+                                           else visits_g fu t x (pick (r_route_false R) l r) b
+      | _, _, _, _ => false
+      end
+    end
+  end.
+
+(* the "Set up variables" block of Kauri.fit *)
+Definition eff_max_leaves_g (P : params) (n : nat) : nat := r_max_leaves R (max_leaves P) n.
+Definition eff_max_depth_g (P : params) (n : nat) : nat := r_max_depth R (max_depth P) n.
+(* max_features (only the size of the feature subset handed to find_best_split) *)
+Definition eff_max_features_g (mf : option nat) (d : nat) : nat := r_max_features R mf d.
+
+(* Z[<row>, :] = 1; Y[<k>, <l>] = 1; n_leaves = <c>; n_clusters = <c>;
+   leaves_to_explore = <conditional list>; leaf2node = {<k>: <v>} (other keys: KeyError, here 0) *)
+Definition init_g (P : params) (X : data) : state :=
+  {| st_Z := fun l _ => l =? r_init_Z_row R;
+     st_Y := fun k l => (k =? r_init_Y_k R) && (l =? r_init_Y_l R);
+     st_nl := r_init_nl R; st_nc := r_init_nc R;
+     st_queue := r_init_queue R (length X) (min_samples_split P);
+     st_l2n := fun x => if x =? r_init_l2n_key R then r_init_l2n_val R else 0;
+     st_tree := tree_init_g |}.
+
+(* leaf_indices = where(Z[leaf] == 1); left_indices = leaf_indices[X[leaf_indices, feature] <cmp> threshold];
+   right_indices = setxor1d(leaf_indices, left_indices) *)
+Definition goes_left_g (X : data) (st : state) (sp : ksplit) (i : nat) : bool :=
+  st_Z st (s_leaf sp) i && r_goes_left R (feat X i (s_feature sp)) (s_threshold sp).
+Definition goes_right_g (X : data) (st : state) (sp : ksplit) (i : nat) : bool :=
+  st_Z st (s_leaf sp) i && negb (r_goes_left R (feat X i (s_feature sp)) (s_threshold sp)).
+
+(* one `Z[<row>, <index set>] = <v>` *)
+Definition Z_update (leaf nl : nat) (gl gr : nat -> bool) (Zc : nat -> nat -> bool) (u : colsel * sidesel * bool) : nat -> nat -> bool :=
+  let '(c, s, v) := u in fun l i => if (l =? col_of c leaf nl) && pick s gl gr i then v else Zc l i.
+(* one `Y[<cluster>, <column>] = <v>` *)
+Definition Y_update (k lt rt leaf nl : nat) (Yc : nat -> nat -> bool) (u : clsel * colsel * bool) : nat -> nat -> bool :=
+  let '(cs, c, v) := u in fun c0 l => if (c0 =? cl_of cs k lt rt) && (l =? col_of c leaf nl) then v else Yc c0 l.
 
 (* body of the while loop of Kauri.fit for a split with gain > 0 *)
-Definition step (P : params) (X : data) (st : state) (sp : ksplit) : state :=
+Definition step_g (P : params) (X : data) (st : state) (sp : ksplit) : state :=
   let n := length X in
   let leaf := s_leaf sp in
   let nl := st_nl st in
   let nc := st_nc st in
-  let right := goes_right X st sp in
-  (* Z[leaf, right_indices] = 0 ; Z[n_leaves, right_indices] = 1 *)
-  let Z' := fun l i => if l =? leaf then (if right i then false else st_Z st l i)
-                       else if l =? nl then (if right i then true else st_Z st l i)
-                       else st_Z st l i in
-  (* k = Y[:, leaf].argmax(); Y[k, leaf] = 0; Y[left_target, leaf] = 1; Y[right_target, n_leaves] = 1 *)
-  let k := cluster_of P st leaf in
-  let Y1 := fun c l => if (c =? k) && (l =? leaf) then false else st_Y st c l in
-  let Y2 := fun c l => if (c =? s_left sp) && (l =? leaf) then true else Y1 c l in
-  let Y' := fun c l => if (c =? s_right sp) && (l =? nl) then true else Y2 c l in
+  let gl := goes_left_g X st sp in
+  let gr := goes_right_g X st sp in
+  (* the run of Z[..] = .. assignments, in source order *)
+  let Z' := fold_left (Z_update leaf nl gl gr) (r_Z_updates R) (st_Z st) in
+  (* k = Y[:, <col>].argmax(); then the run of Y[..] = .. assignments *)
+  let k := cluster_of P st (col_of (r_Y_argmax_col R) leaf nl) in
+  let Y' := fold_left (Y_update k (s_left sp) (s_right sp) leaf nl) (r_Y_updates R) (st_Y st) in
   (* tree_._add_child(leaf2node[leaf], split); parent_depth = tree_.get_depth(leaf2node[leaf]) *)
   let father := st_l2n st leaf in
-  let t' := add_child (st_tree st) father sp in
+  let t' := add_child_g (st_tree st) father sp in
   let parent_depth := nd_depth (get_node t' father) in
-  (* leaf2node[leaf] = 2*n_leaves-1 ; leaf2node[n_leaves] = 2*n_leaves *)
-  let l2n' := upd (upd (st_l2n st) leaf (2 * nl - 1)) nl (2 * nl) in
-  (* leaves_to_explore.remove(leaf); append children if parent_depth+1 < max_depth and size >= min_samples_split *)
+  (* the run of leaf2node[<key>] = <e n_leaves> *)
+  let l2n' := fold_left (fun f (u : colsel * (nat -> nat)) => upd f (col_of (fst u) leaf nl) (snd u nl)) (r_l2n_updates R) (st_l2n st) in
+  (* leaves_to_explore.remove(leaf); if <depth test>: the run of `if <size test>: append(<leaf>)` *)
   let q0 := remove_first leaf (st_queue st) in
-  let q' := if S parent_depth <? eff_max_depth P n
-            then q0 ++ (if min_samples_split P <=? countb n (goes_left X st sp) then [leaf] else [])
-                    ++ (if min_samples_split P <=? countb n right then [nl] else [])
+  let q' := if r_depth_ok R parent_depth (eff_max_depth_g P n)
+            then q0 ++ concat (map (fun u : sidesel * (nat -> nat -> bool) * colsel =>
+                                      let '(s, test, c) := u in
+                                      if test (countb n (pick s gl gr)) (min_samples_split P) then [col_of c leaf nl] else [])
+                                   (r_queue_appends R))
             else q0 in
-  (* n_leaves += 1; n_clusters += 2 if both targets >= n_clusters, += 1 if one of them *)
-  let nc' := if (nc <=? s_left sp) && (nc <=? s_right sp) then nc + 2
-             else if (nc <=? s_left sp) || (nc <=? s_right sp) then nc + 1 else nc in
-  {| st_Z := Z'; st_Y := Y'; st_nl := S nl; st_nc := nc'; st_queue := q'; st_l2n := l2n'; st_tree := t' |}.
+  {| st_Z := Z'; st_Y := Y'; st_nl := r_nl_next R nl; st_nc := r_nc_next R nc (s_left sp) (s_right sp);
+     st_queue := q'; st_l2n := l2n'; st_tree := t' |}.
 
-(* while last_gain > 0 and n_leaves < max_leaves and len(leaves_to_explore) != 0 *)
-Definition guard (P : params) (X : data) (st : state) : bool :=
-  (st_nl st <? eff_max_leaves P (length X)) && negb (match st_queue st with [] => true | _ => false end).
+(* while last_gain > 0 and <n_leaves test> and <queue test> *)
+Definition guard_g (P : params) (X : data) (st : state) : bool :=
+  r_guard R (st_nl st) (eff_max_leaves_g P (length X)) (length (st_queue st)).
 
-Inductive outcome := Done (st : state) | OutOfFuel.
 (* the oracle returns None when the best gain is <= 0 (the loop then stops) *)
-Fixpoint loop (fuel : nat) (P : params) (X : data) (choose : state -> option ksplit) (st : state) : outcome :=
+Fixpoint loop_g (fuel : nat) (P : params) (X : data) (choose : state -> option ksplit) (st : state) : outcome :=
   match fuel with
   | O => OutOfFuel
-  | S fu => if guard P X st
-            then match choose st with None => Done st | Some sp => loop fu P X choose (step P X st sp) end
+  | S fu => if guard_g P X st
+            then match choose st with None => Done st | Some sp => loop_g fu P X choose (step_g P X st sp) end
             else Done st
   end.
-Definition fit (P : params) (X : data) (choose : state -> option ksplit) : outcome :=
-  loop (S (eff_max_leaves P (length X))) P X choose (init P X).
+Definition fit_g (P : params) (X : data) (choose : state -> option ksplit) : outcome :=
+  loop_g (S (eff_max_leaves_g P (length X))) P X choose (init_g P X).
+Definition route_leaf_g (t : tree) (x : row) : option nat := route_g (length t) t x 0.
+(* Kauri.predict = tree_.predict *)
+Definition predict_row_g (t : tree) (x : row) : option nat :=
+  match route_leaf_g t x with Some a => Some (nd_target (get_node t a)) | None => None end.
+Definition predict_g (t : tree) (X : data) : list (option nat) := map (predict_row_g t) X.
+(* number of training rows whose routing passes through node a *)
+Definition node_count_g (t : tree) (X : data) (a : nat) : nat :=
+  countb (length X) (fun i => visits_g (length t) t (nth i X []) 0 a).
 
 (* labels_ = (Y @ Z).argmax(0) ; leaves_ = Z.argmax(0)   (matrix dims: K x L and L x n) *)
-Definition label_of (P : params) (X : data) (st : state) (i : nat) : nat :=
-  let L := eff_max_leaves P (length X) in
+Definition label_of_g (P : params) (X : data) (st : state) (i : nat) : nat :=
+  let L := eff_max_leaves_g P (length X) in
   argmax_nat (max_clusters P) (fun k => sumn L (fun l => b2n (st_Y st k l) * b2n (st_Z st l i))).
-Definition leaf_of (P : params) (X : data) (st : state) (i : nat) : nat :=
-  argmax_nat (eff_max_leaves P (length X)) (fun l => b2n (st_Z st l i)).
-Definition labels (P : params) (X : data) (st : state) : list nat := map (label_of P X st) (seq 0 (length X)).
-Definition leaves (P : params) (X : data) (st : state) : list nat := map (leaf_of P X st) (seq 0 (length X)).
+Definition leaf_of_g (P : params) (X : data) (st : state) (i : nat) : nat :=
+  argmax_nat (eff_max_leaves_g P (length X)) (fun l => b2n (st_Z st l i)).
+Definition labels_g (P : params) (X : data) (st : state) : list nat := map (label_of_g P X st) (seq 0 (length X)).
+Definition leaves_g (P : params) (X : data) (st : state) : list nat := map (leaf_of_g P X st) (seq 0 (length X)).
 
 (* ------------------------------------------------------------------ what find_best_split may return *)
-(* _utils.pyx::find_best_split / compute_all_splits, structural part only:
+(* _utils.pyx::find_best_split / compute_all_splits, structural part only (hand-written: the .pyx is C08's):
    - j in leaves_to_explore, feature in feature_subset (a subset of range(d));
    - threshold = X[nu[l_split], feature] for a sample of the leaf, with l_split+1 >= min_leaf samples
      at or below it and n_leaf-l_split-1 >= min_leaf strictly above (the equal-value skip makes the
-     sorted position and the [<=] count coincide);
+     sorted position and the [<=] count coincide; the two counts are taken with fit's own left/right rule);
    - targets: double star (n_clusters, n_clusters+1) if n_clusters < K_max-1 and the leaf is not its
      whole cluster; single star (n_clusters, k)/(k, n_clusters) if n_clusters < K_max; switch
      (k', k)/(k, k') with k' < n_clusters; reallocation (k_l, k_r) both < n_clusters, only if the
      leaf is not its whole cluster.  [keeps] below says: the cluster k of the leaf is not emptied. *)
-Definition admissibleb (P : params) (d : nat) (X : data) (st : state) (sp : ksplit) : bool :=
+Definition admissibleb_g (P : params) (d : nat) (X : data) (st : state) (sp : ksplit) : bool :=
   let n := length X in
   let leaf := s_leaf sp in
   let k := cluster_of P st leaf in
@@ -231,14 +264,73 @@ Definition admissibleb (P : params) (d : nat) (X : data) (st : state) (sp : kspl
   existsb (Nat.eqb leaf) (st_queue st)
   && (s_feature sp <? d)
   && existsb (fun i => st_Z st leaf i && (feat X i (s_feature sp) =? s_threshold sp)%Z) (seq 0 n)
-  && (min_samples_leaf P <=? countb n (goes_left X st sp))
-  && (min_samples_leaf P <=? countb n (goes_right X st sp))
+  && (min_samples_leaf P <=? countb n (goes_left_g X st sp))
+  && (min_samples_leaf P <=? countb n (goes_right_g X st sp))
   && keeps
   && (((lt <? nc) && (rt <? nc))
       || ((lt =? nc) && (rt <? nc) && (nc <? max_clusters P))
       || ((lt <? nc) && (rt =? nc) && (nc <? max_clusters P))
       || ((lt =? nc) && (rt =? S nc) && (S nc <? max_clusters P))).
+End Skeleton.
 
+
+(* ================================================================== instantiation with the regenerated rules *)
+Definition tree_init : tree := tree_init_g kauri_fit_rules.
+Definition add_child : tree -> nat -> ksplit -> tree := add_child_g kauri_fit_rules.
+Definition route : nat -> tree -> row -> nat -> option nat := route_g kauri_fit_rules.
+Definition visits : nat -> tree -> row -> nat -> nat -> bool := visits_g kauri_fit_rules.
+Definition eff_max_leaves : params -> nat -> nat := eff_max_leaves_g kauri_fit_rules.
+Definition eff_max_depth : params -> nat -> nat := eff_max_depth_g kauri_fit_rules.
+Definition eff_max_features : option nat -> nat -> nat := eff_max_features_g kauri_fit_rules.
+Definition init : params -> data -> state := init_g kauri_fit_rules.
+Definition goes_left : data -> state -> ksplit -> nat -> bool := goes_left_g kauri_fit_rules.
+Definition goes_right : data -> state -> ksplit -> nat -> bool := goes_right_g kauri_fit_rules.
+Definition step : params -> data -> state -> ksplit -> state := step_g kauri_fit_rules.
+Definition guard : params -> data -> state -> bool := guard_g kauri_fit_rules.
+Definition loop : nat -> params -> data -> (state -> option ksplit) -> state -> outcome := loop_g kauri_fit_rules.
+Definition fit : params -> data -> (state -> option ksplit) -> outcome := fit_g kauri_fit_rules.
+
+Definition route_leaf : tree -> row -> option nat := route_leaf_g kauri_fit_rules.
+Definition predict_row : tree -> row -> option nat := predict_row_g kauri_fit_rules.
+Definition predict : tree -> data -> list (option nat) := predict_g kauri_fit_rules.
+Definition node_count : tree -> data -> nat -> nat := node_count_g kauri_fit_rules.
+Definition label_of : params -> data -> state -> nat -> nat := label_of_g kauri_fit_rules.
+Definition leaf_of : params -> data -> state -> nat -> nat := leaf_of_g kauri_fit_rules.
+Definition labels : params -> data -> state -> list nat := labels_g kauri_fit_rules.
+Definition leaves : params -> data -> state -> list nat := leaves_g kauri_fit_rules.
+Definition admissibleb : params -> nat -> data -> state -> ksplit -> bool := admissibleb_g kauri_fit_rules.
+
+(* ================================================================== the hand-written golden copy of the holes *)
+(* kauri.py as of the commit this development was written for.  Props/C09.v proves
+   kauri_fit_rules = golden_fit_rules (drift is an L1 failure); the correspondence runs the implementation
+   against the model under BOTH records, so that drift also produces a concrete failing input. *)
+Definition golden_fit_rules : FitRules := {|
+  r_ensure_min_samples := fun msl mss : nat => msl;
+  r_contradiction := fun msl mss : nat => Nat.ltb mss (2 * msl);
+  r_max_leaves := fun (max_leaves : option nat) (n : nat) => match max_leaves with Some v => v | None => n end;
+  r_max_features := fun (max_features : option nat) (d : nat) => match max_features with Some v => Nat.min (Nat.max 1 v) d | None => d end;
+  r_max_depth := fun (max_depth : option nat) (n : nat) => match max_depth with Some v => v | None => n end;
+  r_init_Z_row := 0; r_init_Y_k := 0; r_init_Y_l := 0; r_init_nl := 1; r_init_nc := 1;
+  r_init_queue := fun n mss : nat => if Nat.leb mss n then [0] else [];
+  r_init_l2n_key := 0; r_init_l2n_val := 0;
+  r_guard := fun n_leaves max_leaves qlen : nat => (Nat.ltb n_leaves max_leaves) && (negb (Nat.eqb 0 qlen));
+  r_goes_left := fun x th : Z => Z.leb x th;
+  r_Z_updates := [(CLeaf, SRight, false); (CNew, SRight, true)];
+  r_Y_argmax_col := CLeaf;
+  r_Y_updates := [(KOld, CLeaf, false); (KLeft, CLeaf, true); (KRight, CNew, true)];
+  r_l2n_updates := [(CLeaf, fun n_leaves : nat => 2 * n_leaves - 1); (CNew, fun n_leaves : nat => 2 * n_leaves)];
+  r_depth_ok := fun parent_depth max_depth : nat => Nat.ltb (parent_depth + 1) max_depth;
+  r_queue_appends := [(SLeft, (fun len_side mss : nat => Nat.leb mss len_side), CLeaf); (SRight, (fun len_side mss : nat => Nat.leb mss len_side), CNew)];
+  r_nl_next := fun n_leaves : nat => n_leaves + 1;
+  r_nc_next := fun n_clusters left_target right_target : nat =>
+    if (Nat.leb n_clusters left_target) && (Nat.leb n_clusters right_target) then n_clusters + 2
+    else if (Nat.leb n_clusters left_target) || (Nat.leb n_clusters right_target) then n_clusters + 1 else n_clusters;
+  r_root_target := 0; r_root_depth := 0;
+  r_child_left := fun n_nodes : nat => n_nodes; r_child_right := fun n_nodes : nat => n_nodes + 1;
+  r_child_depth_l := fun father_depth : nat => father_depth + 1; r_child_depth_r := fun father_depth : nat => father_depth + 1;
+  r_child_target_l := SLeft; r_child_target_r := SRight;
+  r_route_left := fun x th : Z => Z.leb x th;
+  r_route_true := SLeft; r_route_false := SRight |}.
 
 (* the oracle used by the correspondence: replay a recorded sequence of splits (iteration = n_leaves-1),
    refusing any recorded split that is not admissible in the current state *)
@@ -266,4 +358,4 @@ Definition objective (n K : nat) (ker : nat -> nat -> T) (lab : nat -> nat) : T 
 Definition score (t : tree) (X : data) (K : nat) (ker : nat -> nat -> T) : T :=
   objective (length X) K ker (fun i => match predict_row t (nth i X []) with Some c => c | None => K end).
 End Objective.
-(* EXTRACT: ksplit node params state outcome tree_init add_child route visits route_leaf predict_row predict count_leaves tree_depth node_count init step guard loop fit label_of leaf_of labels leaves admissibleb replay_oracle cluster_of leaf_size cluster_size stock objective score eff_max_leaves eff_max_depth *)
+(* EXTRACT: golden_fit_rules fit_g labels_g leaves_g predict_g route_leaf_g node_count_g admissibleb_g ksplit node params state outcome tree_init add_child route visits route_leaf predict_row predict count_leaves tree_depth node_count init step guard loop fit label_of leaf_of labels leaves admissibleb replay_oracle cluster_of leaf_size cluster_size stock objective score eff_max_leaves eff_max_depth eff_max_features *)
